@@ -1,0 +1,109 @@
+// Runtime invariant monitor (verification hook, only compiled with the `verif` build tag).
+if (typeof process !== "undefined" && process.env !== undefined && process.env.GOPHERJS_VERIF_MON) {
+    (() => {
+        var chans = [], gors = [], pendingTimers = 0;
+        var checks = 0, violations = 0, deadlockReported = false, finished = false;
+        var report = (inv, msg) => {
+            violations++;
+            if (violations <= 8) {
+                console.error("VERIF-INVARIANT " + inv + " " + msg);
+            }
+        };
+        var origChan = $Chan;
+        $Chan = function (elem, capacity) {
+            origChan.call(this, elem, capacity);
+            chans.push(this);
+        };
+        $Chan.prototype = origChan.prototype;
+        var origSchedule = $schedule;
+        $schedule = goroutine => {
+            if (gors.indexOf(goroutine) === -1) {
+                gors.push(goroutine);
+            }
+            origSchedule(goroutine);
+        };
+        var origSetTimeout = $setTimeout;
+        $setTimeout = (f, t) => {
+            pendingTimers++;
+            return origSetTimeout(() => { pendingTimers--; f(); }, t);
+        };
+        var origError = console.error;
+        console.error = function (...args) {
+            if (typeof args[0] === "string" && args[0].indexOf("all goroutines are asleep") !== -1) {
+                deadlockReported = true;
+                // I6: the report is only legitimate when nothing can ever run again
+                if ($scheduled.length !== 0) { report("I6", "deadlock reported while " + $scheduled.length + " goroutine(s) are scheduled"); }
+                if (pendingTimers !== 0) { report("I6", "deadlock reported while " + pendingTimers + " timer(s) are pending"); }
+                gors.forEach((g, i) => { if (!g.asleep) { report("I6", "deadlock reported while goroutine #" + i + " is awake"); } });
+                summary();
+            }
+            return origError.apply(console, args);
+        };
+        var check = () => {
+            checks++;
+            // I1: accounting
+            if ($awakeGoroutines < 0) { report("I1", "$awakeGoroutines=" + $awakeGoroutines); }
+            if ($totalGoroutines < 0) { report("I1", "$totalGoroutines=" + $totalGoroutines); }
+            var awake = 0, asleep = 0, alive = 0;
+            gors.forEach(g => {
+                if (!g.exit) { alive++; }
+                if (!g.asleep) { awake++; } else if (!g.exit) { asleep++; }
+            });
+            if (awake + pendingTimers !== $awakeGoroutines) {
+                report("I1", "awake goroutines (" + awake + ") + pending timers (" + pendingTimers + ") != $awakeGoroutines (" + $awakeGoroutines + ")");
+            }
+            if (alive !== $totalGoroutines) {
+                report("I1", "goroutines not exited (" + alive + ") != $totalGoroutines (" + $totalGoroutines + ")");
+            }
+            // I2: channel shape
+            var entries = 0;
+            chans.forEach((c, i) => {
+                var b = c.$buffer.length, s = c.$sendQueue.length, r = c.$recvQueue.length;
+                entries += s + r;
+                if (b > c.$capacity) { report("I2", "chan#" + i + " buffer " + b + " > capacity " + c.$capacity); }
+                if (r > 0 && b > 0) { report("I2", "chan#" + i + " has " + r + " waiting receiver(s) and " + b + " buffered value(s)"); }
+                if (s > 0 && b < c.$capacity) { report("I2", "chan#" + i + " has " + s + " waiting sender(s) and free buffer space"); }
+                if (s > 0 && r > 0) { report("I2", "chan#" + i + " has waiting senders and receivers at the same time"); }
+                if (c.$closed && (s > 0 || r > 0)) { report("I2", "closed chan#" + i + " still has " + s + " sender(s) / " + r + " receiver(s) queued"); }
+            });
+            if ($chanNil.$closed !== false || $chanNil.$buffer.length !== 0) { report("I2", "the nil channel was modified"); }
+            // I4: run queue
+            for (var i = 0; i < $scheduled.length; i++) {
+                var g = $scheduled[i];
+                if (g.asleep) { report("I4", "an asleep goroutine is in the run queue"); }
+                if ($scheduled.indexOf(g) !== i) { report("I4", "a goroutine is in the run queue twice"); }
+            }
+            gors.forEach((g, i) => {
+                if (!g.asleep && !g.exit && $scheduled.indexOf(g) === -1) {
+                    report("I4", "goroutine #" + i + " is awake but not scheduled (it can never run)");
+                }
+            });
+        };
+        var origRun = $runScheduled;
+        $runScheduled = () => {
+            try {
+                origRun();
+            } finally {
+                if ($curGoroutine === $noGoroutine) {
+                    check();
+                }
+            }
+        };
+        var summary = () => {
+            if (finished) { return; }
+            finished = true;
+            origError.call(console, "VERIF-MON checks=" + checks + " chans=" + chans.length + " goroutines=" + gors.length + " violations=" + violations);
+        };
+        process.on("beforeExit", () => {
+            // the event loop drained: either main finished or the deadlock was reported
+            if (!$mainFinished && !deadlockReported && $checkForDeadlock && $exportedFunctions === 0) {
+                var alive = gors.filter(g => !g.exit).length;
+                if (alive > 0) {
+                    report("I6", "event loop drained with " + alive + " unfinished goroutine(s), main not finished and no deadlock report");
+                }
+            }
+            summary();
+        });
+        process.on("exit", summary);
+    })();
+}
